@@ -6,7 +6,42 @@ use crate::{dump, model::Model, report::Report, rng::Rng, Ctx};
 use serde_json::json;
 use std::collections::HashMap;
 
+/// a burst: while a first request is still being worked on, edits of one note with requests between them are all
+/// sent before anything advances (they queue up behind the waiting message loop), then the workers run in a
+/// random order — every request between two edits must see exactly the edits sent before it
+pub fn gen_burst(r: &mut Rng) -> (usize, Vec<Act>) {
+    let notes = r.range(1, 2);
+    let n = r.below(notes);
+    let mut acts = vec![Act::Send(Msg::Req { id: 1, note: r.below(notes), outcome: Outcome::Ok })];
+    if r.chance(1, 2) {
+        acts.push(Act::Advance(1));
+    }
+    let mut id = 1;
+    let mut ver = 0;
+    let mut reqs = vec![1u32];
+    for _ in 0..r.range(2, 3) {
+        ver += 1;
+        acts.push(Act::Send(Msg::Notif { note: n, ver }));
+        if r.chance(3, 4) {
+            id += 1;
+            reqs.push(id);
+            acts.push(Act::Send(Msg::Req { id, note: n, outcome: Outcome::Ok }));
+        }
+    }
+    let mut left: Vec<(u32, u32)> = reqs.iter().map(|i| (*i, 3)).collect();
+    while left.iter().any(|a| a.1 > 0) && acts.len() < 40 {
+        let can: Vec<usize> = left.iter().enumerate().filter(|(_, a)| a.1 > 0).map(|(i, _)| i).collect();
+        let i = *r.pick(&can[..]);
+        left[i].1 -= 1;
+        acts.push(Act::Advance(left[i].0));
+    }
+    (notes, acts)
+}
+
 pub fn gen_schedule(r: &mut Rng, with_panics: bool) -> (usize, Vec<Act>) {
+    if !with_panics && r.chance(1, 4) {
+        return gen_burst(r);
+    }
     let notes = r.range(1, 2);
     let nreq = r.range(1, 4);
     let nnot = r.range(1, 3);
@@ -255,6 +290,11 @@ pub fn run_prop(ctx: &Ctx, model: &mut Model, rep: &mut Report, prop: &str) {
         let vd = oracle(notes, &acts, &out);
         if let Some(what) = if with_panics { vd.c12 } else { vd.c11 } {
             rep.fail(json!({"kind": "schedule", "notes": notes, "acts": text, "what": what}));
+        }
+        // a broken router makes every schedule wait for its deadlines: a handful of failing inputs is enough
+        if !ctx.thorough && rep.impl_failures.len() >= 6 {
+            rep.count("stopped_early_after_6_failures");
+            break;
         }
     }
 }
